@@ -64,6 +64,7 @@ def finish(a):
         if d["pc"]: cons.append(P.con("next_pc"))
         if d["pc"] == "both": cons.append(P.con("next_pcq"))
         if d["pg"] == "scalar": cons.append(P.con("pg_le"))
+        if d["pg"] == "scalar": cons.append(P.con("x_between_pg", scale=3))      # scaled, two-sided, parametric upper bound
     if use == "objective":
         if d["pc"]: obj.append("integral_pc")
         if d["pg"] == "scalar": obj.append("pg")
